@@ -422,6 +422,14 @@ fn truth(dl: &Delivered, d: &[[u8; 32]; 7]) -> Truth {
             }
         }
     }
+    // the same coin twice is rejected whatever the signature says (a tampering of
+    // amount or parent can make two spends collide)
+    let mut ids = std::collections::BTreeSet::new();
+    for s in &dl.spends {
+        if !ids.insert(sha(&[&s.parent, &spend_ph(s), &int_atom(s.amount)])) {
+            return Truth { accept: false, why: "same_coin_spent_twice", pairs };
+        }
+    }
     if bad_key {
         return Truth { accept: false, why: "infinity_or_malformed_key", pairs };
     }
@@ -1017,7 +1025,15 @@ fn gen_bundle(rng: &mut Rng, parent_counter: &mut u64, tamper_pct: u64, d: &[[u8
         let amount = if rng.chance(1, 3) { shared_amount } else { *rng.pick(&AMOUNTS) };
         // sometimes the same parent as the previous spend, with a different amount
         let parent_seed = match spends.last() {
-            Some(prev) if rng.chance(1, 8) && { let p: &SpendSpec = prev; p.amount != amount } => prev.parent_seed,
+            Some(prev) if rng.chance(1, 8) => {
+                let p: &SpendSpec = prev;
+                // never the same (parent, amount) twice: that would be the same coin
+                if spends.iter().any(|x: &SpendSpec| x.parent_seed == p.parent_seed && x.amount == amount) {
+                    *parent_counter
+                } else {
+                    p.parent_seed
+                }
+            }
             _ => *parent_counter,
         };
         spends.push(SpendSpec { parent_seed, amount, conds, quoted: rng.chance(1, 3) });
